@@ -160,8 +160,9 @@ pub fn replay() {
             }
             let (t1, t2) = (respell_rule(&t0, x["sp1"].as_u64().unwrap(), &lex), respell_rule(&t0, x["sp2"].as_u64().unwrap(), &lex));
             let mut rng = Rng::new(seed.wrapping_mul(131).wrapping_add(vec["seed"].as_u64().unwrap()));
-            for k in 0..3 {
-                let wt = gen_word_text(&mut rng, true);
+            let directed = crate::directed::words(&x["rule"], &t, &mut rng, 2);
+            for k in 0..4 {
+                let wt = if k >= 2 && (k as usize - 2) < directed.len() { directed[k as usize - 2].clone() } else { gen_word_text(&mut rng, true) };
                 let Ok(word) = v::parse_word(&wt, &al) else { continue };
                 let w0 = v::render_word(&word, &al);
                 let w1 = respell_word(&w0, x["sp1"].as_u64().unwrap() + k, &lex);
